@@ -111,6 +111,9 @@ F1_SIG = {"site": "watching.continuous_watch", "shape": "HTTP 410 on the watch r
 F2_SIG = {"site": "api.request", "shape": "retry attempts of a list/watch request begun before the pause are re-sent while paused"}
 F3_SIG = {"site": "orchestration.terminate_redundancies", "shape": "cluster-scoped watcher survives the removal of the last served namespace"}
 
+F4_SIG = {"site": "orchestration.spawn_missing_watchers",
+          "shape": "dead watcher task (ended with an exception) keeps its key: the served pair is never watched again"}
+
 CLIENT_ACTS = {"wake", "notice", "unblock", "respond", "failReq", "deliver", "bookmark", "drop", "err410",
                "errUnknown", "unknownType", "garbage"}
 
@@ -685,6 +688,9 @@ def oracle_operator(sc: dict, r: dict) -> list[tuple[str, dict]]:
             dup = len(set(got)) != len(got)
             if not missing and not dup and not nss and all((not SCOPE[g[0]]) and g[1] is None and g[0] in served for g in extra):
                 fails.append((f"t={c['t']}: no namespace is served but the cluster-scoped watch(es) {extra} are still open", F3_SIG))
+            elif not extra and not dup and missing and all(m[0] in r.get("not_found", []) for m in missing):
+                fails.append((f"t={c['t']}: served pair(s) {missing} have no watch: the watcher died on HTTP 404 while its CRD was away, "
+                              "its key stayed in the ensemble, and it is never started again", F4_SIG))
             elif not extra and not dup and missing and all(m[0] in gone410 for m in missing):
                 fails.append((f"t={c['t']}: served pair(s) {missing} have no watch: the watcher died on HTTP 410 and is never restarted", F1_SIG))
             else:
@@ -705,7 +711,11 @@ def oracle_operator(sc: dict, r: dict) -> list[tuple[str, dict]]:
             if not SCOPE[plural] and ok_ns is not None and not ok_ns:
                 continue        # no namespace is served: no (resource, namespace) pair is served at all
             if seen.get((plural, ns, name)) != rv:
-                if plural in gone410:
+                if plural in r.get("not_found", []) and (plural, ns if SCOPE[plural] else None) not in \
+                        {(w[0], w[1]) for w in last["watches"]} and (plural, None) not in {(w[0], w[1]) for w in last["watches"]}:
+                    fails.append((f"{plural}/{ns}/{name} is at version {rv}, the last version a handler saw is {seen.get((plural, ns, name))}: "
+                                  "its watcher died on HTTP 404 and is never started again", F4_SIG))
+                elif plural in gone410:
                     fails.append((f"{plural}/{ns}/{name} is at version {rv}, the last version a handler saw is {seen.get((plural, ns, name))}: "
                                   "the watcher died on HTTP 410 and the running operator never re-lists", F1_SIG))
                 else:
@@ -882,7 +892,7 @@ def search(ctx: Ctx, broken: list) -> None:
         items.append(("stream", gen_script(rng, 7_000_000 + i)))
     for i in range(ctx.budget(2000, 20000)):
         items.append(("adjust", gen_history(rng, 7_000_000 + i)))
-    open_sigs = [F1_SIG, F2_SIG, F3_SIG]
+    open_sigs = [F2_SIG, F3_SIG, F4_SIG]
     for res in _run_items(items, jobs):
         for what, sig in res.get("fails", []):
             if sig not in open_sigs:
